@@ -579,10 +579,167 @@ def host_oracle(ctx, budget):
     return nchecked
 
 
+# ------------------------------------------------------------------ early-exit paths of the hosts
+EARLY_HOSTS = {
+    # host -> (rule, 1-based pass index?, record is the airPLS residual norm?)
+    'airpls': ('airpls', True, True), 'pspline_airpls': ('airpls', True, True),
+    'arpls': ('arpls', False, False), 'pspline_arpls': ('arpls', False, False),
+    'drpls': ('drpls', True, False), 'pspline_drpls': ('drpls', True, False),
+    'iarpls': ('iarpls', True, False), 'pspline_iarpls': ('iarpls', True, False),
+    'lsrpls': ('lsrpls', True, False), 'pspline_lsrpls': ('lsrpls', True, False),
+    'aspls': ('aspls', False, False), 'pspline_aspls': ('aspls', False, False),
+}
+EARLY_MSG = 'almost all baseline points'
+
+
+def early_datasets(two_d):
+    """Deterministic noise-free data on which stiff baselines leave fewer than two points below them."""
+    if two_d:
+        xx, zz = np.meshgrid(np.linspace(0, 1, 11), np.linspace(0, 1, 12), indexing='ij')
+        plane = 5 + 2 * xx + zz
+        out = {}
+        for nm, (dr, dc, amp) in {'plane-spike-down': (5, 6, -3.0), 'plane-spike-up': (4, 7, 3.0)}.items():
+            y = plane.copy()
+            y[dr, dc] += amp
+            out[nm] = y
+        out['plane'] = plane.copy()
+        out['bowl'] = 5 + 4 * (xx - 0.5) ** 2 + 4 * (zz - 0.5) ** 2
+        return (np.linspace(0, 1, 11), np.linspace(0, 1, 12)), out
+    n = 60
+    x = np.linspace(0, 100, n)
+    lin = 5 + 0.02 * x
+    out = {}
+    y = lin.copy(); y[n // 2] -= 3; out['lin-spike-down'] = y                    # noqa: E702
+    y = lin.copy(); y[n // 2] += 3; out['lin-spike-up'] = y                      # noqa: E702
+    out['linear'] = lin.copy()
+    out['parabola-up'] = 5 + 0.002 * (x - 50) ** 2
+    y = lin.copy(); y[n // 3] -= 3; y[2 * n // 3] += 4; out['lin-two-spikes'] = y   # noqa: E702
+    out['step'] = np.where(x < 50, 1.0, 2.0)
+    return (x,), out
+
+
+def host_call(name, two_d, axes, y, kw):
+    from pybaselines import Baseline, Baseline2D
+    with warnings.catch_warnings(record=True) as wl:
+        warnings.simplefilter('always')
+        fit = Baseline2D(*axes) if two_d else Baseline(*axes)
+        b, p = getattr(fit, name)(y, **kw)
+    early = any(EARLY_MSG in str(w.message) for w in wl)
+    return np.asarray(b, dtype=float), np.asarray(p['tol_history'], dtype=float), early
+
+
+def expected_record(rule, one_based, is_airpls, y, step_baselines, max_iter, tol, normalize=True, coef=0.5):
+    """The documented stop rule replayed from the baselines of the individual steps: step j computes the
+    rule on (data, baseline j); fewer than two negative residuals -> stop, nothing recorded; otherwise the
+    step's value is recorded and the loop stops when it is below tol or after max_iter + 1 steps."""
+    from pybaselines.utils import _MIN_FLOAT
+    yf = np.asarray(y, dtype=float).ravel()
+    w_prev = np.ones(yf.size)
+    rec = []
+    for j in range(max_iter + 1):
+        if j >= len(step_baselines):
+            return None, 'more steps than baselines'
+        r = yf - step_baselines[j].ravel()
+        neg = r[r < 0]
+        if neg.size < 2:
+            return np.array(rec), f'early exit at step {j}'
+        it = j + 1 if one_based else j
+        w_new = doc_weights(rule, yf, step_baselines[j], it=it, normalize=normalize, coef=coef)
+        if is_airpls:
+            d = abs(neg.sum()) / np.abs(yf).sum()
+        else:
+            d = np.linalg.norm(w_new - w_prev) / max(np.linalg.norm(w_prev), _MIN_FLOAT)
+        rec.append(d)
+        if d < tol:
+            return np.array(rec), f'converged at step {j}'
+        w_prev = w_new
+    return np.array(rec), 'max_iter exhausted'
+
+
+def early_exit_case(ctx, name, two_d, dname, kw, configs, probe_iter=14):
+    """Returns the number of (max_iter, tol) configurations compared (0 when this input takes no early exit)."""
+    rule, one_based, is_airpls = EARLY_HOSTS[name]
+    axes, data = early_datasets(two_d)
+    y = data[dname]
+    NEVER = -1.0
+    try:
+        b, th, early = host_call(name, two_d, axes, y, dict(kw, max_iter=probe_iter, tol=NEVER))
+    except Exception:  # noqa -- raising is C01's business
+        return 0
+    if not early or th.ndim != 1:
+        return 0
+    L = len(th)                       # the early exit happened in step L (0-based): nothing recorded for it
+    steps = []
+    for j in range(L + 1):
+        bj, thj, _ = host_call(name, two_d, axes, y, dict(kw, max_iter=j, tol=NEVER))
+        steps.append(bj)
+    n = 0
+    for (mi, tol) in configs(L):
+        case = {'kind': 'early-exit', 'method': name, 'two_d': two_d, 'data': dname, 'kwargs': kw, 'max_iter': mi, 'tol': tol}
+        try:
+            _, got, _ = host_call(name, two_d, axes, y, dict(kw, max_iter=mi, tol=tol))
+        except Exception as exc:  # noqa
+            ctx.fail(f'stop:{name}:{"2d" if two_d else "1d"}:early-exit-raises', f'{name}({kw}, max_iter={mi}, tol={tol}) on {dname} raised '
+                     f'{type(exc).__name__}: {exc}', case)
+            continue
+        want, why = expected_record(rule, one_based, is_airpls, y, steps, mi, tol, normalize=kw.get('normalize_weights', True),
+                                    coef=kw.get('asymmetric_coef', 0.5))
+        ctx.case(('early-exit', name, two_d, dname, repr(kw), mi, tol), nontrivial=True, kind=f'stop:early-exit:{rule}')
+        n += 1
+        if want is None:
+            continue
+        bad = None
+        if got.shape != want.shape:
+            bad = (f'tol_history has {got.size} entries {got.tolist()}, the documented rule replayed from the per-step baselines gives '
+                   f'{want.size} ({why})')
+        elif got.size and not np.allclose(got, want, rtol=1e-7, atol=1e-300):
+            bad = f'tol_history {got.tolist()} differs from the values recomputed from the per-step baselines {want.tolist()} ({why})'
+        if bad:
+            ctx.fail(f'stop:{name}:{"2d" if two_d else "1d"}:early-exit-record',
+                     f'{name}({kw}, max_iter={mi}, tol={tol}) on noise-free data "{dname}" (the run takes the documented early exit: fewer than '
+                     f'two points below the baseline): {bad}', case)
+    return n
+
+
+def early_configs(L):
+    cfg = [(14, -1.0), (14, 1e-3), (L, -1.0), (L + 1, -1.0), (0, 1e-3)]
+    if L >= 1:
+        cfg.append((L - 1, -1.0))
+    return cfg
+
+
+def early_exit_oracle(ctx, budget):
+    """Every host with the documented early exit, on FIXED enumerated noise-free inputs that take it."""
+    total = 0
+    per_host = {}
+    for two_d in (False, True):
+        _, data = early_datasets(two_d)
+        from . import methods as M
+        for name in [n for n in M.method_names(two_d) if n in EARLY_HOSTS]:
+            hits = 0
+            for dname in data:
+                for lam in (1e0, 1e2, 1e4, 1e6):
+                    for do in ((1, 2) if not two_d else (2,)):
+                        if hits >= (3 if budget == 1 else 8):
+                            break
+                        if name == 'drpls' and do < 2:
+                            continue      # drpls requires diff_order >= 2
+                        kw = dict(lam=lam, diff_order=do)
+                        if name.startswith('pspline'):
+                            kw['num_knots'] = 20 if not two_d else 6
+                        for extra in (({}, {'normalize_weights': False}) if EARLY_HOSTS[name][0] == 'airpls' and hits == 0 else ({},)):
+                            k = early_exit_case(ctx, name, two_d, dname, dict(kw, **extra), early_configs)
+                            total += k
+                            hits += k > 0
+            per_host[f'{name}{"(2d)" if two_d else ""}'] = hits
+    ctx.note('early-exit inputs found per host: ' + ', '.join(f'{k}={v}' for k, v in per_host.items()))
+    return total
+
+
 def run(ctx):
     ctx.rule = ('residual vectors of size 3..100, magnitudes 1e-100..1e100, kinds mixed/all-positive/all-negative/ties-at-zero/'
                 'one-negative/wide; bit-exact cases for asls, drpls, lsrpls, iarpls, quantile and the early-exit flags of all rules; '
-                'oracle cases for every rule (incl. eps=None on fits of every sign pattern, un-normalised airpls, zero standard deviation); hosts (1-D and 2-D, default rule parameters, data positive / negated / below zero / far below zero / centred / tiny) with tol never met: returned weights vs the documented rule on the returned baseline; trace validation of the stop rule on every iterative method (shared with C01); '
+                'hosts with the documented early exit (airpls, arpls, drpls, iarpls, lsrpls, aspls and pspline_ versions, 1-D and 2-D) on FIXED noise-free inputs (line / plane with one spike, parabola, step; lam 1..1e6) that take it: len and entries of tol_history vs the stop rule replayed from per-step baselines (max_iter = j, tol = -1 runs) for max_iter around the exit step and tol in {-1, 1e-3}; oracle cases for every rule (incl. eps=None on fits of every sign pattern, un-normalised airpls, zero standard deviation); hosts (1-D and 2-D, default rule parameters, data positive / negated / below zero / far below zero / centred / tiny) with tol never met: returned weights vs the documented rule on the returned baseline; trace validation of the stop rule on every iterative method (shared with C01); '
                 'non-trivial = at least two negative and one positive residual (rules), returning call with non-empty record (traces)')
     ctx.trusted += [
         'Coq Reals standard axioms (ClassicalDedekindReals.sig_forall_dec, sig_not_dec, functional_extensionality_dep; '
@@ -600,6 +757,8 @@ def run(ctx):
     oracle(ctx, budget)
     oracle_defaults(ctx, budget)
     nh = host_oracle(ctx, budget)
+    ne = early_exit_oracle(ctx, budget)
+    ctx.note(f'{ne} host runs that take (or stop just before / after) the documented early exit compared with the stop rule replayed from per-step baselines')
     ctx.note(f'oracle budget x{budget}; brpls value formula (erf) and its beta -> 1 guard only range/monotone checked; '
              f'{nh} returned (weights, baseline) pairs of 1-D/2-D hosts compared with the documented rule at default parameters; '
              'derpsalsa hosts through the invariance of the partial weights only; mixture_model / brpls hosts (nested or carried '
@@ -622,6 +781,13 @@ class _ReplayCtx:
 def replay(rep):
     case = rep.get('case') or {}
     print('replay case keys:', list(case))
+    if case.get('kind') == 'early-exit':
+        rc = _ReplayCtx(0)
+        rc.note = lambda *a, **k: None
+        early_exit_case(rc, case['method'], case['two_d'], case['data'], case['kwargs'],
+                        lambda L: [(case['max_iter'], case['tol'])])
+        print('replay early-exit:', rc.fails[0][1] if rc.fails else 'the recorded tol_history follows the documented stop rule on this input')
+        return 1 if rc.fails else 0
     if case.get('kind') == 'host':
         rc = _ReplayCtx(case.get('seed', 0))
         host_oracle(rc, 1)
